@@ -16,4 +16,4 @@ def replay(ctx, rec):
     return layout_engine.replay(ctx, 'C08', rec)
 
 
-CLAIM = {'text': "C08_label_updates_from_source: every label update of the three size-changing passes in the SOURCE (regenerated Gen/PassTable.v label_updates) has the shape of the model's shrink_after (v > position -> v - (old - new size)). C08_final: in every successful run (both modes) each instruction's immediate expression is evaluated at the FINAL offset of the item the programmer wrote (p; p-4 for the second instruction of a far call/tail/li) against ChainMap(constants, FINAL labels) and that value is what the generated encoder receives; the label table is exact (C03). C08_offset/position/bare give the three documented forms (q-p, base+q, q). C08_settled_stable / C08_li_near_final / C08_compress_on_settled: every EARLY decision (li size, compression rule) is taken only on a settled value (label-free and not position-relative: same value at every position under every label table) or on a jump-to-label distance. Proving these exposed D17/D20 (li of position-relative operands) which were re-found by the check and fixed in /repo. Falsifier: values decoded from the REAL output (instructions, li expansions, dw/pack data, %hi/%lo pairs) compared with the expression on final offsets, labels placed so that they move after each kind of decision.", 'note': "Trusted: as C03. Data words (dw/pack) with label operands are covered by the correspondence and falsifier; the theorem's value relation is stated for instruction items. NOT proved: that a jump-to-label distance only moves towards zero after the decision.", 'technique': 'Coq proof over the pass model; stability lemmas by induction over expressions; differential correspondence; Spec-decoding falsifier', 'design': '6/C08'}
+CLAIM = {'text': "AT THE TEXT LEVEL (Proofs/TextVal*.v, sub-agent; lexer model -> parser model -> 16 passes): C08_text_instruction_value -- a line of the I-, S-, U-type tables whose immediate depends on a label or on its own position comes out, in both modes, as one 4-byte word whose decoded immediate is the DOCUMENTED value (value_at: a bare name is the label offset, %offset(L) is L minus the offset of this line, %position(L, b) is b + L, %hi / %lo, arithmetic) computed with every label at the total size of the chunks of the lines in front of its label line and the position at the size in front of this line; C08_text_li_value (the two chunks of li, run on the Spec machine, leave that value in rd); C08_text_data_value / C08_text_pack_value (db..dd / pack: the bytes of that value); C08_text_*_label composed with the label line; C08_text_label_forms; C08_immediate_spellings. PASS LEVEL: C08_label_updates_from_source: every label update of the three size-changing passes in the SOURCE (regenerated Gen/PassTable.v label_updates) has the shape of the model's shrink_after (v > position -> v - (old - new size)). C08_final: in every successful run (both modes) each instruction's immediate expression is evaluated at the FINAL offset of the item the programmer wrote (p; p-4 for the second instruction of a far call/tail/li) against ChainMap(constants, FINAL labels) and that value is what the generated encoder receives; the label table is exact (C03). C08_offset/position/bare give the three documented forms (q-p, base+q, q). C08_settled_stable / C08_li_near_final / C08_compress_on_settled: every EARLY decision (li size, compression rule) is taken only on a settled value (label-free and not position-relative: same value at every position under every label table) or on a jump-to-label distance. Proving these exposed D17/D20 (li of position-relative operands) which were re-found by the check and fixed in /repo. Falsifier: values decoded from the REAL output (instructions, li expansions, dw/pack data, %hi/%lo pairs) compared with the expression on final offsets, labels placed so that they move after each kind of decision.", 'note': "Trusted: as C03. Data words (dw/pack) with label operands: C08_text_data_value / C08_text_pack_value. That a jump-to-label distance only moves towards zero after the decision is proved for programs without align (C12_no_align_labels_never_apart, Proofs/AcceptLayout.v) and false across an align (K1).", 'technique': 'Coq proof over the pass model; stability lemmas by induction over expressions; differential correspondence; Spec-decoding falsifier', 'design': '6/C08'}
